@@ -350,6 +350,18 @@ theorem manifest_edit_safe {D R σ : Type} [DecidableEq D] (E : LoadEnv D R σ) 
       · exact h hgok.1.2
       · exact h hgok.2
 
+/-- The consistent downward edit, spelled out: a tampered manifest in which a fragment's `count` was LOWERED
+below the number of records the file really holds — together with `node_count` / `edge_count`, the metrics,
+anything else, so that `Manifest.validate` passes — is refused by the verification pass, before any write.
+(The model's preflight decodes the records and compares their number with `count` by `≠`, exactly as
+`decodeNodeFragmentFile` / `decodeEdgeFragmentFile` do: `Tie.verify_comparisons`.) Raised counts likewise. -/
+theorem count_edit_consistent_rejected {D R σ : Type} [DecidableEq D] (E : LoadEnv D R σ) (m' : Man D) (dir : Dir)
+    (f' : Frag D) (hf : f' ∈ m'.files) (b : Bytes) (recs : List R) (hget : dir.get f'.path = some b)
+    (hdec : E.decode m'.codec f'.phase b = some recs) (hcount : f'.count < recs.length ∨ (recs.length : Int) < f'.count) :
+    (load E m' dir).err.isSome = true ∧ ∀ ev ∈ (load E m' dir).trace, ev.isBatch = false := by
+  refine ((manifest_edit_safe E m' dir).1 f' hf b hget).1 recs hdec ?_
+  rcases hcount with h | h <;> omega
+
 /-! ## (c) the staging protocol of `Unpack` -/
 
 /-- `staging_promote_atomic` (encrypted unpack path, `retriever.Unpack`). For every archive content, every
@@ -649,5 +661,16 @@ example : ((load demoEnv demoMan demoDir).trace.filter Ev.isBatch).length = 3 :=
 -- one flipped byte in a fragment: refused, no batch
 example : (load demoEnv demoMan [(['n'], [1, 2, 4]), (['e'], [9])]).err = some .verify ∧
     ((load demoEnv demoMan [(['n'], [1, 2, 4]), (['e'], [9])]).trace.filter Ev.isBatch).length = 0 := by decide
+
+-- the consistent downward edit on the demo collection: node fragment count 3 -> 2 and node_count 3 -> 2.
+-- The manifest validates (totals agree), the verification pass counts 3 records against 2: refused, no batch.
+def demoManLowered : Man Bytes :=
+  { codec := 1, graphCount := 1, schemaFor := [['g']],
+    graphs := [{ name := ['g'], nodeCount := 2, edgeCount := 1,
+                 files := [{ path := ['n'], phase := .nodes, count := 2, cbytes := 3, sha := [1, 2, 3] },
+                           { path := ['e'], phase := .edges, count := 1, cbytes := 1, sha := [9] }] }] }
+example : demoManLowered.validate demoEnv.emptySha = true := by decide
+example : (load demoEnv demoManLowered demoDir).err = some .verify ∧
+    ((load demoEnv demoManLowered demoDir).trace.filter Ev.isBatch).length = 0 := by decide
 
 end Dawgs.C20.Props
